@@ -364,6 +364,7 @@ def run_case(rng, ctx):
     # -- functor lookup ---------------------------------------------------------------
     if name != "cat":
         functor_lookup(rng, ctx, name, mod, ns, pool)
+        downgrade_after_hashing(ctx, name, mod, pool)
     classes = {}
     for i, key in enumerate(keys):
         classes.setdefault(repr(key), []).append(i)
@@ -416,3 +417,45 @@ def hash_ok(v):
         return True
     except TypeError:
         return False
+
+
+def downgrade_after_hashing(ctx, name, mod, pool):
+    """
+    History: use a value as a dictionary key (which hashes it), downcast it,
+    and compare the downcast with the downcast of an equal value that was never
+    hashed.  Both are values of one class built by the same route.
+    """
+    seen = 0
+    generators = [v for v in pool if type(v).__name__ in ("Box", "Swap", "Cup", "Cap")]
+    composites = [v for v in pool if type(v).__name__ == "Diagram"]
+    for v in generators[:14] + composites[:4]:
+        if sort_of(v) != "arrow" or not hasattr(v, "downgrade") or not hash_ok(v):
+            continue
+        try:
+            twin = eval(repr(v), dict(_ENV[name][1]))      # equal, never hashed
+        except Exception:
+            continue
+        {v: 1}[v]                                      # hashes v (and its boxes)
+        for box in v.boxes:
+            hash(box)
+        first, second = v.downgrade(), twin.downgrade()
+        equal = bool(first == second) and bool(second == first)
+        same_hash = hash(first) == hash(second)
+        try:
+            found = {first: 1}[second] == 1
+        except KeyError:
+            found = False
+        ctx.expect("hash-consistent", (not equal) or (same_hash and found), cls=name,
+                   history="hash, then downgrade()", a=lambda: safe_repr(first),
+                   b=lambda: safe_repr(second), type_a=type(first).__name__,
+                   type_b=type(second).__name__,
+                   equal_atoms_printed_differently=lambda:
+                   equal_atoms_printed_differently(first, second),
+                   bubble_involved=False)
+        ctx.expect("eq-iff-same-structure",
+                   equal == (struct.key(first) == struct.key(second)), cls=name,
+                   history="hash, then downgrade()", library_says_equal=equal,
+                   a=lambda: safe_repr(first), b=lambda: safe_repr(second),
+                   type_a=type(first).__name__, type_b=type(second).__name__,
+                   key_a="", key_b="", bubble_involved=False)
+        seen += 1
